@@ -19,6 +19,10 @@ const P_P3: [[f64; 2]; 3] = [[0.680, 0.320], [0.265, 0.690], [0.150, 0.060]]; //
 const P_P3PLUS: [[f64; 2]; 3] = [[0.740, 0.270], [0.220, 0.780], [0.090, -0.090]]; // DCI-P3+
 const P_ROMM: [[f64; 2]; 3] = [[0.7347, 0.2653], [0.1596, 0.8404], [0.0366, 0.0001]]; // ISO 22028-2
 
+/// the luma "standard" `Linear<Wp>`: only the white point and the (identity) transfer function matter
+pub const fn lin_luma(wp: Wp) -> RgbSpec {
+    RgbSpec { name: "LinLuma", prim: P_SRGB, wp, tf: Tf::Linear }
+}
 pub const SRGB: RgbSpec = RgbSpec { name: "Srgb", prim: P_SRGB, wp: Wp::D65, tf: Tf::Srgb };
 pub const LIN_SRGB: RgbSpec = RgbSpec { name: "LinSrgb", prim: P_SRGB, wp: Wp::D65, tf: Tf::Linear };
 pub const REC709: RgbSpec = RgbSpec { name: "Rec709", prim: P_SRGB, wp: Wp::D65, tf: Tf::RecOetf };
